@@ -477,8 +477,67 @@ let m_slpparch (f : Stdlib.String.t list) : Stdlib.String.t =
       | r -> outcome_head r ^ "\n")
    | r -> outcome_head r ^ "\n")
 
+(* schedules: g<k>,i,f,... as the harness parses them *)
+let sched_of (s : Stdlib.String.t) : rstep list =
+  if s = "-" then [] else
+    Stdlib.List.map (fun x ->
+        match x.[0] with
+        | 'i' -> api_step_interrupt
+        | 'f' -> api_step_fault
+        | _ -> api_step_give (nat_of_int (int_of_string (Stdlib.String.sub x 1 (Stdlib.String.length x - 1)))))
+      (Stdlib.String.split_on_char ',' s)
+
+(* rexact: <hex> <sched> <sizes>: std read_exact calls (Frag.read_exact_f) over the schedule *)
+let m_rexact (f : Stdlib.String.t list) : Stdlib.String.t =
+  let data = bytes_of_hex (Stdlib.List.nth f 0) in
+  let sched = sched_of (Stdlib.List.nth f 1) in
+  let sizes = Stdlib.List.map int_of_string (Stdlib.String.split_on_char ',' (Stdlib.List.nth f 2)) in
+  let total = Stdlib.List.length data in
+  let out = Buffer.create 256 in
+  let rec go i data sched sizes =
+    match sizes with
+    | [] -> ()
+    | n :: r ->
+      let ((res, data'), sched') = api_rexact (nat_of_int n) data sched in
+      let pos = total - Stdlib.List.length data' and left = Stdlib.List.length sched' in
+      (match res with
+       | Ok bs -> Buffer.add_string out (Printf.sprintf "r%d=ok:%s pos=%d left=%d\n" i (hex_of_bytes bs) pos left)
+       | Err _ -> Buffer.add_string out (Printf.sprintf "r%d=err pos=%d left=%d\n" i pos left)
+       | Panic _ -> Buffer.add_string out (Printf.sprintf "r%d=PANIC\n" i)
+       | Fuel -> Buffer.add_string out (Printf.sprintf "r%d=FUEL\n" i));
+      go (i + 1) data' sched' r in
+  go 0 data sched sizes;
+  Buffer.contents out
+
+(* readsched: <hex> <opts> <sched>: the reader program run over the scheduled stream (Frag.run_frag) *)
+let m_readsched (f : Stdlib.String.t list) : Stdlib.String.t =
+  let data = bytes_of_hex (Stdlib.List.nth f 0) in
+  let o = Stdlib.List.nth f 1 in
+  let hash = Stdlib.String.contains o 'h' in
+  let sched = sched_of (Stdlib.List.nth f 2) in
+  let total = Stdlib.List.length data in
+  let out = Buffer.create 4096 in
+  let ((res, rest), hashed) = api_read_sched hash data sched in
+  let consumed = total - Stdlib.List.length rest in
+  (match res with
+   | Ok g ->
+     Buffer.add_string out "OK\n";
+     Buffer.add_string out (Printf.sprintf "consumed=%d/%d\n" consumed total);
+     (* the hasher was fed exactly the consumed bytes: checked here on every run, proved in FragProof.v *)
+     (match hashed, g.g_hashed with
+      | Some n, Some m when int_of_nat n = consumed && int_of_nat m = consumed -> ()
+      | None, None -> ()
+      | _ -> Buffer.add_string out "MODEL-HASH-MISMATCH\n");
+     dump_game out g
+   | r ->
+     Buffer.add_string out (outcome_head r ^ "\n");
+     Buffer.add_string out (Printf.sprintf "consumed=%d/%d\n" consumed total));
+  Buffer.contents out
+
 let dispatch (mode : Stdlib.String.t) (f : Stdlib.String.t list) : Stdlib.String.t =
   match mode with
+  | "rexact" -> m_rexact f
+  | "readsched" -> m_readsched f
   | "read" -> m_read f
   | "rt" -> m_rt f
   | "emit" -> m_emit f
